@@ -151,9 +151,6 @@ func c06RunChar(c c06Char) error {
 				return err
 			}
 		}
-		if err := budgetCheck(r, ref, cell.Rejected); err != nil {
-			return fmt.Errorf("%w (that outcome is not counted by the reported entropy %v)", err, ent)
-		}
 	}
 	q := cell.RejW
 	p := new(big.Rat).Set(maxW)
